@@ -733,6 +733,9 @@ pub fn finish(
   // replay files + VIOLATION lines
   let mut exit = 0;
   let replay_dir = format!("{}/replay/{}", VERIF, def.id);
+  if o.only_case.is_none() {
+    let _ = std::fs::remove_dir_all(&replay_dir);
+  }
   let mut seen_sig: BTreeSet<String> = BTreeSet::new();
   let mut nviol = 0;
   for v in &sum.violations {
